@@ -15,16 +15,7 @@
 using namespace hv;
 
 extern uint64_t g_seed;
-namespace
-{
-struct SopKind // (not the run half's struct of the same name: internal linkage)
-{
-    size_t sz, al, cap;
-};
-}
-#define SOPK(SZ, AL, CAP) {SZ, AL, CAP},
-static const std::vector<SopKind> sop_kinds = {C10_SOPK_LIST(SOPK)};
-#undef SOPK
+// (sop_kinds: the table of C10_sop.cpp, declared in C10_shared.h; only sz / al / cap are read here)
 
 // ---------------------------------------------------------------- gen
 static size_t pick_size(rng &r)
